@@ -2,13 +2,16 @@
 (* Disk protocol of simpledb at the grain at which a kill -9 can separate two steps (flush.go, compaction.go,
    sstable_manager.go reflectCompactionResult, recovery.go, package wal).  Crash is enabled in every state, also inside recovery.
    RecMap = what the intended recovery reconstructs from the disk alone.  Switches reproduce defective designs (negative
-   self-tests): DropTombAlways (S1), SizeRotate (S11), WalRemoveAnyOrder (S12), RecFinishRenameFirst.                         *)
+   self-tests): DropTombAlways (S1), SizeRotate (S11), WalRemoveAnyOrder (S12), RecFinishRenameFirst, RotateDropsBuffer.
+   Async = TRUE is the asynchronous WAL (C13): appends are buffered, reach the file in pieces, a kill loses the buffer.                         *)
 EXTENDS Naturals, Sequences, FiniteSets, TLC, SequencesExt
 CONSTANTS Keys, Vals, MaxOps, MaxGen, MaxWal,
           MaxCrash, DropTombAlways,      \* TRUE = code as read (S1)
           SizeRotate,          \* TRUE = model size-triggered WAL rotation without flush (S11)
           WalRemoveAnyOrder,   \* TRUE = RemoveAll(wal) unlinks in any order (S12)
-          RecFinishRenameFirst \* TRUE = recovery renames merged table before deleting inputs (code as read)
+          RecFinishRenameFirst, \* TRUE = recovery renames merged table before deleting inputs (code as read)
+          Async,               \* TRUE = asynchronous WAL: appends go to a write buffer that reaches the file later, in pieces (C13)
+          RotateDropsBuffer    \* TRUE = a rotation does not write the buffered appends out first (negative switch for the async model)
 NONE == "none"
 TOMB == "tomb"
 Empty == [k \in Keys |-> NONE]
@@ -29,9 +32,14 @@ VARIABLES
   mode,     \* "run" | "rec"
   rpc,      \* recovery pc
   rmem,     \* memstore being rebuilt by replay
+  \* asynchronous WAL
+  wbuf,     \* appended operations that are still in the writer's buffer (lost by a kill)
   \* history
-  model, nops, inflight, ncrash
-vars == <<wals, cur, tdirs, cdir, mem, imm, immWal, tables, gen, fpc, cpc, csel, mode, rpc, rmem, model, nops, inflight, ncrash>>
+  model, nops, inflight, ncrash,
+  applied,  \* async: acknowledged operations since the last crash / start, in order;  base: the map they apply to;
+  base, rotn \* rotn: Len(applied) at the last WAL rotation - everything before it is on disk
+vars == <<wals, cur, tdirs, cdir, mem, imm, immWal, tables, gen, fpc, cpc, csel, mode, rpc, rmem, wbuf, model, nops, inflight, ncrash, applied, base, rotn>>
+AV == <<wbuf, applied, base, rotn>>
 
 Gens(d) == DOMAIN d
 SortedSeq(S) == SetToSortSeq(S, LAMBDA x, y : x < y)
@@ -66,47 +74,60 @@ RemoveOutcomes(d, g) == {Without(d, g)} \cup (IF d[g].ok /\ ~d[g].broken
 Ins == {cdir.inputs[i] : i \in 1..Len(cdir.inputs)}
 \* a table that looks complete but misses files makes Open fail - unless a flagged compaction that lists it finishes the removal first
 OpenFails == \E g \in DOMAIN tdirs : tdirs[g].ok /\ tdirs[g].broken /\ ~(cdir.st = "flagged" /\ g \in Ins)
-CrashSafe == ~OpenFails /\ RecMap \in Allowed
+\* C13: some prefix of the acknowledged sequence that contains everything before the last rotation (plus, possibly, the operation in flight)
+AllowedAsync == {Vis(ApplyOps(base, SubSeq(applied, 1, n))) : n \in rotn..Len(applied)}
+                \cup (IF inflight = NoOp THEN {} ELSE {Vis(ApplyOps(base, Append(applied, inflight)))})
+CrashSafe == ~OpenFails /\ RecMap \in (IF Async THEN AllowedAsync ELSE Allowed)
 
 \* ---------- initial state: opened empty database ----------
 Init == /\ wals = (1 :> <<>>) /\ cur = 1 /\ tdirs = <<>> /\ cdir = [st |-> "none", inputs |-> <<>>, data |-> Empty]
         /\ mem = Empty /\ imm = Empty /\ immWal = {} /\ tables = <<>> /\ gen = 0 /\ fpc = "idle" /\ cpc = "idle" /\ csel = <<>>
         /\ mode = "run" /\ rpc = "none" /\ rmem = Empty /\ model = Empty /\ nops = 0 /\ inflight = NoOp /\ ncrash = 0
+        /\ wbuf = <<>> /\ applied = <<>> /\ base = Empty /\ rotn = 0
 
 \* ---------- client ----------
 WalWrite(k, v) == /\ mode = "run" /\ inflight = NoOp /\ nops < MaxOps
                   /\ inflight' = [k |-> k, v |-> v]
-                  /\ wals' = [wals EXCEPT ![cur] = Append(@, [k |-> k, v |-> v])]
+                  /\ IF Async THEN wbuf' = Append(wbuf, [k |-> k, v |-> v]) /\ UNCHANGED wals
+                     ELSE wals' = [wals EXCEPT ![cur] = Append(@, [k |-> k, v |-> v])] /\ UNCHANGED wbuf
                   /\ nops' = nops + 1
-                  /\ UNCHANGED <<cur, tdirs, cdir, mem, imm, immWal, tables, gen, fpc, cpc, csel, mode, rpc, rmem, model>>
+                  /\ UNCHANGED <<cur, tdirs, cdir, mem, imm, immWal, tables, gen, fpc, cpc, csel, mode, rpc, rmem, model, applied, base, rotn>>
 AckOp == /\ mode = "run" /\ inflight # NoOp
          /\ mem' = [mem EXCEPT ![inflight.k] = inflight.v]
          /\ model' = [model EXCEPT ![inflight.k] = inflight.v]
          /\ inflight' = NoOp
-         /\ UNCHANGED <<wals, cur, tdirs, cdir, imm, immWal, tables, gen, fpc, cpc, csel, mode, rpc, rmem, nops>>
+         /\ applied' = (IF Async THEN Append(applied, inflight) ELSE applied)
+         /\ UNCHANGED <<wals, cur, tdirs, cdir, imm, immWal, tables, gen, fpc, cpc, csel, mode, rpc, rmem, nops, wbuf, base, rotn>>
+\* the buffered writer hands a piece of its buffer to the file (a cut inside a record is ignored by the replay: whole records only)
+BufFlush == /\ Async /\ mode = "run" /\ wbuf # <<>>
+            /\ \E n \in 1..Len(wbuf) : /\ wals' = [wals EXCEPT ![cur] = @ \o SubSeq(wbuf, 1, n)]
+                                        /\ wbuf' = SubSeq(wbuf, n + 1, Len(wbuf))
+            /\ UNCHANGED <<cur, tdirs, cdir, mem, imm, immWal, tables, gen, fpc, cpc, csel, mode, rpc, rmem, model, nops, inflight, ncrash, applied, base, rotn>>
 \* forced rotation in lock-step with the memstore (needs flusher idle: unbuffered channel)
 Rotate == /\ mode = "run" /\ inflight = NoOp /\ fpc = "idle" /\ mem # Empty /\ cur < MaxWal
-          /\ wals' = wals @@ ((cur + 1) :> <<>>) /\ cur' = cur + 1
+          \* closing the old file writes its buffer out
+          /\ wals' = [wals EXCEPT ![cur] = IF RotateDropsBuffer THEN @ ELSE @ \o wbuf] @@ ((cur + 1) :> <<>>) /\ cur' = cur + 1
+          /\ wbuf' = <<>> /\ rotn' = Len(applied)
           /\ imm' = mem /\ immWal' = {cur} /\ mem' = Empty /\ fpc' = "taken"
-          /\ UNCHANGED <<tdirs, cdir, tables, gen, cpc, csel, mode, rpc, rmem, model, nops, inflight>>
+          /\ UNCHANGED <<tdirs, cdir, tables, gen, cpc, csel, mode, rpc, rmem, model, nops, inflight, applied, base>>
 \* size-triggered rotation inside Append: new file, no hand-off
 SizeRot == /\ SizeRotate /\ mode = "run" /\ inflight = NoOp /\ wals[cur] # <<>> /\ cur < MaxWal
            /\ wals' = wals @@ ((cur + 1) :> <<>>) /\ cur' = cur + 1
-           /\ UNCHANGED <<tdirs, cdir, mem, imm, immWal, tables, gen, fpc, cpc, csel, mode, rpc, rmem, model, nops, inflight>>
+           /\ UNCHANGED <<tdirs, cdir, mem, imm, immWal, tables, gen, fpc, cpc, csel, mode, rpc, rmem, model, nops, inflight, wbuf, applied, base, rotn>>
 
 \* ---------- flusher ----------
 FlushMk == /\ mode = "run" /\ fpc = "taken" /\ gen < MaxGen
            /\ gen' = gen + 1 /\ tdirs' = tdirs @@ ((gen + 1) :> [ok |-> FALSE, broken |-> FALSE, data |-> imm]) /\ fpc' = "writing"
-           /\ UNCHANGED <<wals, cur, cdir, mem, imm, immWal, tables, cpc, csel, mode, rpc, rmem, model, nops, inflight>>
+           /\ UNCHANGED <<wals, cur, cdir, mem, imm, immWal, tables, cpc, csel, mode, rpc, rmem, model, nops, inflight, wbuf, applied, base, rotn>>
 FlushDone == /\ mode = "run" /\ fpc = "writing"
              /\ tdirs' = [tdirs EXCEPT ![gen] = [@ EXCEPT !.ok = TRUE]] /\ fpc' = "written"
-             /\ UNCHANGED <<wals, cur, cdir, mem, imm, immWal, tables, gen, cpc, csel, mode, rpc, rmem, model, nops, inflight>>
+             /\ UNCHANGED <<wals, cur, cdir, mem, imm, immWal, tables, gen, cpc, csel, mode, rpc, rmem, model, nops, inflight, wbuf, applied, base, rotn>>
 FlushUnlink == /\ mode = "run" /\ fpc = "written"
                /\ wals' = [n \in DOMAIN wals \ immWal |-> wals[n]] /\ fpc' = "unlinked"
-               /\ UNCHANGED <<cur, tdirs, cdir, mem, imm, immWal, tables, gen, cpc, csel, mode, rpc, rmem, model, nops, inflight>>
+               /\ UNCHANGED <<cur, tdirs, cdir, mem, imm, immWal, tables, gen, cpc, csel, mode, rpc, rmem, model, nops, inflight, wbuf, applied, base, rotn>>
 FlushInstall == /\ mode = "run" /\ fpc = "unlinked" /\ cpc # "reflect"
                 /\ tables' = Append(tables, gen) /\ fpc' = "idle"   \* imm stays as read store (same content as the table)
-                /\ UNCHANGED <<wals, cur, tdirs, cdir, mem, imm, immWal, gen, cpc, csel, mode, rpc, rmem, model, nops, inflight>>
+                /\ UNCHANGED <<wals, cur, tdirs, cdir, mem, imm, immWal, gen, cpc, csel, mode, rpc, rmem, model, nops, inflight, wbuf, applied, base, rotn>>
 
 \* ---------- compactor: any gap-free run of >= 2 live tables ----------
 Merged(run) == LET m == StackG(tdirs, run) IN
@@ -114,58 +135,60 @@ Merged(run) == LET m == StackG(tdirs, run) IN
 CompSelect == /\ mode = "run" /\ cpc = "idle" /\ cdir.st = "none"
               /\ \E i, j \in 1..Len(tables) : i < j /\ csel' = SubSeq(tables, i, j)
               /\ cpc' = "selected"
-              /\ UNCHANGED <<wals, cur, tdirs, cdir, mem, imm, immWal, tables, gen, fpc, mode, rpc, rmem, model, nops, inflight>>
+              /\ UNCHANGED <<wals, cur, tdirs, cdir, mem, imm, immWal, tables, gen, fpc, mode, rpc, rmem, model, nops, inflight, wbuf, applied, base, rotn>>
 CompMk == /\ mode = "run" /\ cpc = "selected"
           /\ cdir' = [st |-> "partial", inputs |-> csel, data |-> Merged(csel)] /\ cpc' = "merging"
-          /\ UNCHANGED <<wals, cur, tdirs, mem, imm, immWal, tables, gen, fpc, csel, mode, rpc, rmem, model, nops, inflight>>
+          /\ UNCHANGED <<wals, cur, tdirs, mem, imm, immWal, tables, gen, fpc, csel, mode, rpc, rmem, model, nops, inflight, wbuf, applied, base, rotn>>
 CompDone == /\ mode = "run" /\ cpc = "merging" /\ cdir' = [cdir EXCEPT !.st = "complete"] /\ cpc' = "merged"
-            /\ UNCHANGED <<wals, cur, tdirs, mem, imm, immWal, tables, gen, fpc, csel, mode, rpc, rmem, model, nops, inflight>>
+            /\ UNCHANGED <<wals, cur, tdirs, mem, imm, immWal, tables, gen, fpc, csel, mode, rpc, rmem, model, nops, inflight, wbuf, applied, base, rotn>>
 CompFlag == /\ mode = "run" /\ cpc = "merged" /\ cdir' = [cdir EXCEPT !.st = "flagged"] /\ cpc' = "reflect"
-            /\ UNCHANGED <<wals, cur, tdirs, mem, imm, immWal, tables, gen, fpc, csel, mode, rpc, rmem, model, nops, inflight>>
+            /\ UNCHANGED <<wals, cur, tdirs, mem, imm, immWal, tables, gen, fpc, csel, mode, rpc, rmem, model, nops, inflight, wbuf, applied, base, rotn>>
 \* reflect: remove inputs ascending (each RemoveAll one or two steps, see RemoveOutcomes), then rename
 ReflRemove == /\ mode = "run" /\ cpc = "reflect" /\ inflight = NoOp
               /\ \E g \in DOMAIN tdirs : /\ g \in {csel[i] : i \in 1..Len(csel)}
                                          /\ \A h \in DOMAIN tdirs : h \in {csel[i] : i \in 1..Len(csel)} => g <= h
                                          /\ tdirs' \in RemoveOutcomes(tdirs, g)
-              /\ UNCHANGED <<wals, cur, cdir, mem, imm, immWal, tables, gen, fpc, cpc, csel, mode, rpc, rmem, model, nops, inflight>>
+              /\ UNCHANGED <<wals, cur, cdir, mem, imm, immWal, tables, gen, fpc, cpc, csel, mode, rpc, rmem, model, nops, inflight, wbuf, applied, base, rotn>>
 ReflRename == /\ mode = "run" /\ cpc = "reflect" /\ inflight = NoOp
               /\ \A i \in 1..Len(csel) : csel[i] \notin DOMAIN tdirs
               /\ tdirs' = tdirs @@ (csel[1] :> [ok |-> TRUE, broken |-> FALSE, data |-> cdir.data])
               /\ cdir' = [st |-> "none", inputs |-> <<>>, data |-> Empty]
               /\ tables' = SelectSeq(tables, LAMBDA g : g = csel[1] \/ g \notin {csel[i] : i \in 1..Len(csel)})
               /\ cpc' = "idle" /\ csel' = <<>>
-              /\ UNCHANGED <<wals, cur, mem, imm, immWal, gen, fpc, mode, rpc, rmem, model, nops, inflight>>
+              /\ UNCHANGED <<wals, cur, mem, imm, immWal, gen, fpc, mode, rpc, rmem, model, nops, inflight, wbuf, applied, base, rotn>>
 
 \* ---------- crash and recovery (each step one or a few syscalls) ----------
 Crash == /\ mode = "run" /\ ncrash < MaxCrash /\ ncrash' = ncrash + 1 /\ mode' = "rec" /\ rpc' = "compactions"
          /\ mem' = Empty /\ imm' = Empty /\ immWal' = {} /\ tables' = <<>> /\ fpc' = "idle" /\ cpc' = "idle" /\ csel' = <<>> /\ rmem' = Empty
-         /\ model' = IF inflight # NoOp /\ RecMap = Vis([model EXCEPT ![inflight.k] = inflight.v]) THEN [model EXCEPT ![inflight.k] = inflight.v] ELSE model
+         /\ model' = IF Async THEN RecMap
+                     ELSE IF inflight # NoOp /\ RecMap = Vis([model EXCEPT ![inflight.k] = inflight.v]) THEN [model EXCEPT ![inflight.k] = inflight.v] ELSE model
          /\ inflight' = NoOp
+         /\ wbuf' = <<>> /\ applied' = <<>> /\ rotn' = 0 /\ base' = (IF Async THEN RecMap ELSE base)
          /\ UNCHANGED <<wals, cur, tdirs, cdir, gen, nops>>
 ReCrash == /\ mode = "rec" /\ ncrash < MaxCrash /\ ncrash' = ncrash + 1 /\ rpc' = "compactions" /\ rmem' = Empty /\ tables' = <<>>
-           /\ UNCHANGED <<wals, cur, tdirs, cdir, mem, imm, immWal, gen, fpc, cpc, csel, mode, model, nops, inflight>>
+           /\ UNCHANGED <<wals, cur, tdirs, cdir, mem, imm, immWal, gen, fpc, cpc, csel, mode, model, nops, inflight, wbuf, applied, base, rotn>>
 RcDiscard == /\ mode = "rec" /\ rpc = "compactions" /\ cdir.st \in {"none", "partial", "complete"}
              /\ cdir' = [st |-> "none", inputs |-> <<>>, data |-> Empty] /\ rpc' = "load"
-             /\ UNCHANGED <<wals, cur, tdirs, mem, imm, immWal, tables, gen, fpc, cpc, csel, mode, rmem, model, nops, inflight>>
+             /\ UNCHANGED <<wals, cur, tdirs, mem, imm, immWal, tables, gen, fpc, cpc, csel, mode, rmem, model, nops, inflight, wbuf, applied, base, rotn>>
 RcFinRemoveRepl == /\ mode = "rec" /\ rpc = "compactions" /\ cdir.st = "flagged" /\ cdir.inputs[1] \in DOMAIN tdirs
                    /\ (~RecFinishRenameFirst => \A g \in Ins : g \notin DOMAIN tdirs \/ g >= cdir.inputs[1])
                    /\ tdirs' \in RemoveOutcomes(tdirs, cdir.inputs[1])
-                   /\ UNCHANGED <<wals, cur, cdir, mem, imm, immWal, tables, gen, fpc, cpc, csel, mode, rpc, rmem, model, nops, inflight>>
+                   /\ UNCHANGED <<wals, cur, cdir, mem, imm, immWal, tables, gen, fpc, cpc, csel, mode, rpc, rmem, model, nops, inflight, wbuf, applied, base, rotn>>
 RcFinRename == /\ mode = "rec" /\ rpc = "compactions" /\ cdir.st = "flagged" /\ cdir.inputs[1] \notin DOMAIN tdirs
                /\ (~RecFinishRenameFirst => \A g \in Ins : g \notin DOMAIN tdirs)
                /\ tdirs' = tdirs @@ (cdir.inputs[1] :> [ok |-> TRUE, broken |-> FALSE, data |-> cdir.data])
                /\ csel' = cdir.inputs
                /\ cdir' = [st |-> "none", inputs |-> <<>>, data |-> Empty] /\ rpc' = "fininputs"
-               /\ UNCHANGED <<wals, cur, mem, imm, immWal, tables, gen, fpc, cpc, mode, rmem, model, nops, inflight>>
+               /\ UNCHANGED <<wals, cur, mem, imm, immWal, tables, gen, fpc, cpc, mode, rmem, model, nops, inflight, wbuf, applied, base, rotn>>
 RcFinRemoveOther == /\ mode = "rec" /\ cdir.st = "flagged" /\ ~RecFinishRenameFirst /\ rpc = "compactions"
                     /\ \E g \in Ins \cap DOMAIN tdirs : g # cdir.inputs[1] /\ (\A h \in (Ins \cap DOMAIN tdirs) \ {cdir.inputs[1]} : g <= h)
                           /\ tdirs' \in RemoveOutcomes(tdirs, g)
-                    /\ UNCHANGED <<wals, cur, cdir, mem, imm, immWal, tables, gen, fpc, cpc, csel, mode, rpc, rmem, model, nops, inflight>>
+                    /\ UNCHANGED <<wals, cur, cdir, mem, imm, immWal, tables, gen, fpc, cpc, csel, mode, rpc, rmem, model, nops, inflight, wbuf, applied, base, rotn>>
 RcFinInputs == /\ mode = "rec" /\ rpc = "fininputs"
                /\ LET left == {csel[i] : i \in 2..Len(csel)} \cap DOMAIN tdirs IN
                   IF left = {} THEN rpc' = "load" /\ csel' = <<>> /\ UNCHANGED tdirs
                   ELSE \E g \in left : (\A h \in left : g <= h) /\ tdirs' \in RemoveOutcomes(tdirs, g) /\ UNCHANGED <<rpc, csel>>
-               /\ UNCHANGED <<wals, cur, cdir, mem, imm, immWal, tables, gen, fpc, cpc, mode, rmem, model, nops, inflight>>
+               /\ UNCHANGED <<wals, cur, cdir, mem, imm, immWal, tables, gen, fpc, cpc, mode, rmem, model, nops, inflight, wbuf, applied, base, rotn>>
 \* load complete tables sorted; (intended) ignore + remove incomplete ones; restore generation
 RcLoad == /\ mode = "rec" /\ rpc = "load" /\ ~OpenFails
           /\ LET okg == {g \in DOMAIN tdirs : tdirs[g].ok} IN
@@ -173,28 +196,28 @@ RcLoad == /\ mode = "rec" /\ rpc = "load" /\ ~OpenFails
              /\ tables' = SortedSeq(okg)
              /\ gen' = IF DOMAIN tdirs = {} THEN 0 ELSE CHOOSE g \in DOMAIN tdirs : \A h \in DOMAIN tdirs : h <= g
           /\ rpc' = "replay"
-          /\ UNCHANGED <<wals, cur, cdir, mem, imm, immWal, fpc, cpc, csel, mode, rmem, model, nops, inflight>>
+          /\ UNCHANGED <<wals, cur, cdir, mem, imm, immWal, fpc, cpc, csel, mode, rmem, model, nops, inflight, wbuf, applied, base, rotn>>
 RcReplay == /\ mode = "rec" /\ rpc = "replay"
             /\ rmem' = ApplyOps(Empty, RecWalOps)
             /\ rpc' = IF RecWalOps = <<>> THEN "rmwal" ELSE "flushmk"
-            /\ UNCHANGED <<wals, cur, tdirs, cdir, mem, imm, immWal, tables, gen, fpc, cpc, csel, mode, model, nops, inflight>>
+            /\ UNCHANGED <<wals, cur, tdirs, cdir, mem, imm, immWal, tables, gen, fpc, cpc, csel, mode, model, nops, inflight, wbuf, applied, base, rotn>>
 RcFlushMk == /\ mode = "rec" /\ rpc = "flushmk" /\ gen < MaxGen
              /\ gen' = gen + 1 /\ tdirs' = tdirs @@ ((gen + 1) :> [ok |-> FALSE, broken |-> FALSE, data |-> rmem]) /\ rpc' = "flushdone"
-             /\ UNCHANGED <<wals, cur, cdir, mem, imm, immWal, tables, fpc, cpc, csel, mode, rmem, model, nops, inflight>>
+             /\ UNCHANGED <<wals, cur, cdir, mem, imm, immWal, tables, fpc, cpc, csel, mode, rmem, model, nops, inflight, wbuf, applied, base, rotn>>
 RcFlushDone == /\ mode = "rec" /\ rpc = "flushdone"
                /\ tdirs' = [tdirs EXCEPT ![gen] = [@ EXCEPT !.ok = TRUE]] /\ tables' = Append(tables, gen) /\ rpc' = "rmwal"
-               /\ UNCHANGED <<wals, cur, cdir, mem, imm, immWal, gen, fpc, cpc, csel, mode, rmem, model, nops, inflight>>
+               /\ UNCHANGED <<wals, cur, cdir, mem, imm, immWal, gen, fpc, cpc, csel, mode, rmem, model, nops, inflight, wbuf, applied, base, rotn>>
 RcRmWal == /\ mode = "rec" /\ rpc = "rmwal"
            /\ IF DOMAIN wals = {} THEN rpc' = "newwal" /\ UNCHANGED wals
               ELSE \E n \in DOMAIN wals : (WalRemoveAnyOrder \/ \A h \in DOMAIN wals : n <= h)
                                           /\ wals' = [x \in DOMAIN wals \ {n} |-> wals[x]] /\ UNCHANGED rpc
-           /\ UNCHANGED <<cur, tdirs, cdir, mem, imm, immWal, tables, gen, fpc, cpc, csel, mode, rmem, model, nops, inflight>>
+           /\ UNCHANGED <<cur, tdirs, cdir, mem, imm, immWal, tables, gen, fpc, cpc, csel, mode, rmem, model, nops, inflight, wbuf, applied, base, rotn>>
 RcNewWal == /\ mode = "rec" /\ rpc = "newwal"
             /\ wals' = (1 :> <<>>) /\ cur' = 1 /\ imm' = rmem /\ rmem' = Empty /\ mode' = "run" /\ rpc' = "none"
-            /\ UNCHANGED <<tdirs, cdir, mem, immWal, tables, gen, fpc, cpc, csel, model, nops, inflight>>
+            /\ UNCHANGED <<tdirs, cdir, mem, immWal, tables, gen, fpc, cpc, csel, model, nops, inflight, wbuf, applied, base, rotn>>
 
 NextNC == \/ \E k \in Keys : \E v \in Vals \cup {TOMB} : WalWrite(k, v)
-        \/ AckOp \/ Rotate \/ SizeRot \/ FlushMk \/ FlushDone \/ FlushUnlink \/ FlushInstall
+        \/ AckOp \/ BufFlush \/ Rotate \/ SizeRot \/ FlushMk \/ FlushDone \/ FlushUnlink \/ FlushInstall
         \/ CompSelect \/ CompMk \/ CompDone \/ CompFlag \/ ReflRemove \/ ReflRename
         \/ RcDiscard \/ RcFinRemoveRepl \/ RcFinRename \/ RcFinRemoveOther \/ RcFinInputs
         \/ RcLoad \/ RcReplay \/ RcFlushMk \/ RcFlushDone \/ RcRmWal \/ RcNewWal
